@@ -69,6 +69,13 @@ def variants(rng, toks, comment=None):
         return out + trail
     base = join(seps)
     vs = []
+
+    def cm():
+        """one comment, or a run of comments of the registered kinds in random order"""
+        if isinstance(comment, str):
+            return comment
+        k = rng.choice([1, 1, 2, 2, 3])
+        return rng.choice(["", " ", "\n"]).join(rng.choice(comment) for _ in range(k))
     for _ in range(4):
         sp = []
         for (a, b), s in zip(zip(toks, toks[1:]), seps):
@@ -79,14 +86,14 @@ def variants(rng, toks, comment=None):
             else:
                 g = ""
             if comment and g and rng.random() < 0.5:
-                g = g + comment + rng.choice(["", " ", "\n"]) if rng.random() < 0.7 else comment + g
+                g = g + cm() + rng.choice(["", " ", "\n"]) if rng.random() < 0.7 else cm() + g
             sp.append(g)
         lead = rng.choice(["", "", " ", "\n\t"])
         trail = rng.choice(["", "", " ", "\n"])
         if comment and rng.random() < 0.3:
-            lead += comment + " "
+            lead += cm() + " "
         if comment and rng.random() < 0.3:
-            trail += " " + comment
+            trail += " " + cm()
         vs.append(join(sp, lead, trail))
     return base, vs
 
@@ -146,6 +153,75 @@ def run_oracle(ctx, stream, jobs):
     return bad
 
 
+def region_jobs(ctx, n):
+    """the converse clause: a Combine(adjacent) / leave_whitespace region over  w (N w)*  where N is a non-skipping
+    element (one punctuation character via CharsNotIn(exact=1), a leave_whitespace()d literal) wrapped in
+    ZeroOrMore / OneOrMore / Opt / Group - the wrapper's own skip flag comes from N, its later elements must still not
+    skip.  Base = contiguous text; variants = one gap inserted at an interior piece boundary."""
+    jobs = []
+    for i in range(n):
+        r = random.Random(f"C09-{ctx.seed}-region-{i}")
+        prog = [["w", "Word", "ab"], ["w2", "Word", "ab01"]]
+        k = r.random()
+        if k < 0.5:
+            prog.append(["n", "CharsNotIn", "ab01 \t\r\n", {"exact": 1}])
+            sep = r.choice(["-", ".", ":"])
+        elif k < 0.8:
+            sep = r.choice(["-", "."])
+            prog += [["n0", "Literal", sep], ["n", "leave_whitespace", "n0"]]
+        else:
+            sep = "-"
+            prog += [["n0", "Literal", sep], ["n1", "leave_whitespace", "n0"], ["n", "Suppress", "n1"]]
+        prog.append(["s", "+", "n", r.choice(["w", "w2"])])
+        wrap = r.choice(["ZeroOrMore", "OneOrMore", "Opt", "Group1", "plain"])
+        if wrap in ("ZeroOrMore", "OneOrMore", "Opt"):
+            prog.append(["z", wrap, "s"])
+        elif wrap == "Group1":
+            prog += [["zg", "Group", "s"], ["z", "OneOrMore", "zg"]]
+        else:
+            prog.append(["z", "copy", "s"])
+        prog.append(["body", "+", "w", "z"])
+        if r.random() < 0.7:
+            prog.append(["root", "Combine", "body"])
+        else:
+            prog.append(["root", "leave_whitespace", "body"])
+        reps = 1 if wrap in ("Opt", "plain") else r.choice([1, 2, 3])
+        pieces = ["".join(r.choice("ab") for _ in range(r.randint(1, 2)))]
+        for _ in range(reps):
+            pieces += [sep, "".join(r.choice("ab") for _ in range(r.randint(1, 2)))]
+        base = "".join(pieces)
+        vs = []
+        for cut in range(1, len(pieces)):
+            vs.append("".join(pieces[:cut]) + r.choice(GAPS) + "".join(pieces[cut:]))
+        jobs.append(dict(prog=prog, root="root", groups=[(base, vs)]))
+    return jobs
+
+
+def region_job(job):
+    """worker: a gap inside the region must change the result (it is never skipped)"""
+    pp = common.import_pyparsing()
+    try:
+        b = gram.build(pp, job["prog"])
+        root = gram.prepare(b, job["root"])
+    except Exception:
+        return 0, [], 0
+    pp.ParserElement.disable_memoization()
+    n, bad, acc = 0, [], 0
+    for base, vs in job["groups"]:
+        want = outcome(pp, root, base)
+        if want[0] != "ok":
+            continue
+        acc += 1
+        for v in vs:
+            n += 1
+            got = outcome(pp, root, v)
+            if got == want:
+                bad.append({"prog": job["prog"], "root": job["root"], "input": v, "base": base,
+                            "expected": "a result different from " + json.dumps(want), "actual": got})
+                break
+    return n, bad, acc
+
+
 def gen_jobs(ctx, tag, n, with_comment):
     jobs = []
     for i in range(n):
@@ -156,6 +232,10 @@ def gen_jobs(ctx, tag, n, with_comment):
         if with_comment:
             prog = prog + [["cm", "Literal", "#"], ["_", "ignore", root, "cm"]]
             comment = "#"
+            if rng.random() < 0.5:
+                # a second kind of comment, registered later: any mixture, in any order, must be transparent
+                prog = prog + [["cm2", "Literal", "%%"], ["_", "ignore", root, "cm2"]]
+                comment = ["#", "%%"]
         groups = []
         for _ in range(4):
             toks = [t for t in gen.pieces(pg, root) if t]
@@ -244,6 +324,21 @@ def run(ctx):
     run_oracle(ctx, "oracle:gap-variation", jobs)
     jobs_c = gen_jobs(ctx, "cm", ctx.budget(1200, 12000), True)
     run_oracle(ctx, "oracle:comment-insertion", jobs_c)
+    # the converse clause on generated regions
+    rj = region_jobs(ctx, ctx.budget(1500, 15000))
+    res = common.pmap(region_job, rj)
+    badr = [m for r_ in res for m in r_[1]]
+    ctx.count_cases("oracle:gap-inside-region", sum(r_[0] for r_ in res),
+                    distinct_keys=[json.dumps([j["prog"], v]) for j in rj for _, vs in j["groups"] for v in vs],
+                    outcomes={"variants": sum(r_[0] for r_ in res), "accepted base sentences": sum(r_[2] for r_ in res), "skipped gap": len(badr)},
+                    samples=[{"prog": rj[0]["prog"], "base": rj[0]["groups"][0][0], "variant": rj[0]["groups"][0][1][0]}])
+    for m in sorted(badr, key=lambda m: len(m["input"]))[:2]:
+        ctx.fail_input("a gap inside a Combine(adjacent)/leave_whitespace region was skipped",
+                       {"region": True, **{k: m[k] for k in ("prog", "root", "base", "input")}}, m["expected"], m["actual"],
+                       theorem="PP.Parse.preParse_noskip (oracle)", how="harness.props.c09.region_job")
+    corr_parse.run_jobs(ctx, "model-vs-real:regions",
+                        [dict(prog=j["prog"], root=j["root"], inputs=[j["groups"][0][0]] + j["groups"][0][1], entries=[("parse", ())],
+                              modes=[("none",)]) for j in rj[: ctx.budget(600, 6000)]])
     # the model on the same variants
     cj = [dict(prog=j["prog"], root=j["root"], inputs=[g[0] for g in j["groups"]] + [v for g in j["groups"] for v in g[1][:2]],
                entries=[("parse", ())], modes=[("none",)]) for j in (jobs[: ctx.budget(500, 5000)] + jobs_c[: ctx.budget(400, 4000)])]
@@ -255,6 +350,8 @@ def run(ctx):
 def replay(data):
     if data.get("replay_kind") == "failing-input":
         c = data["case"]
+        if c.get("region"):
+            return bool(region_job(dict(prog=c["prog"], root=c["root"], groups=[(c["base"], [c["input"]])]))[1])
         if "prog" in c:
             return bool(oracle_job(dict(prog=c["prog"], root=c["root"], groups=[(c["base"], [c["input"]])]))[1])
     ctx = common.Ctx("C09", "quick", data.get("seed", 0))
